@@ -214,6 +214,7 @@ PROPS = {
                 "plus 2-step chains with fresh options; files: in place / --out / pretend incl. already-optimal inputs; distinct = distinct (input bytes, options)",
     },
     "C05": {
+        "needs_binary": True,
         "lean": ["OxiModel.Props.C05"],
         "streams": [{"name": "corr-front", "quick": 3000, "thorough": 60000}],
         "oracles": [{"name": "oracle-c05", "quick": 2500, "thorough": 200000}],
